@@ -80,6 +80,23 @@ NeedViol(ev) ==
       \cup (IF Tolerated(ev, both) /\ ev.rc < 0 THEN {"C06 refused within tolerance"} ELSE {})
       \cup (IF ev.l1 # ev.l0 THEN {"C16 fragments_needed changed the live block count"} ELSE {})
 
+\* ---- equations observed through the public API, and the instance's own tables (C05 a) ----
+XorEqViol(ev) ==
+   IF ~HasTable(ev.k, ev.m, ev.hd) THEN {"C05 equations extracted for an unsupported shape"}
+   ELSE LET t == TableOf(ev.k, ev.m, ev.hd) IN
+        (IF ev.pbm # t.pbm THEN {"C05 parity equations differ from the golden table"} ELSE {})
+   \cup (IF Has(ev, "ipbm") /\ ev.ipbm # t.pbm THEN {"C05 instance parity table differs from the golden table"} ELSE {})
+   \cup (IF Has(ev, "dbm") /\ ev.dbm # [i \in 1..t.k |-> DataBm(t, i-1)]
+         THEN {"C05 data-side table is not the transpose of the parity-side table"} ELSE {})
+\* ---- which shapes creation accepts (C05 c, C13) ----
+MustRefuse(ev) == ev.k < 1 \/ ev.m < 0 \/ ev.k + ev.m > 32
+CreateBoxViol(ev) ==
+     (IF ev.be = 3 /\ (ev.rc > 0) # XorSupported(ev.k, ev.m, ev.hd) THEN {"C05 create accepts exactly the supported flat-XOR shapes"} ELSE {})
+\cup (IF MustRefuse(ev) /\ ev.rc >= 0 THEN {"C13 unsupported shape accepted"} ELSE {})
+\cup (IF ev.rc = 0 THEN {"C14 create returned descriptor 0"} ELSE {})
+\cup (IF ev.rc < 0 /\ ev.l1 # ev.l0 THEN {"C16 failed create kept memory"} ELSE {})
+\cup (IF ev.rc > 0 /\ (ev.drc # 0 \/ ev.l2 # ev.l0) THEN {"C16 create+destroy changed the live block count"} ELSE {})
+
 \* ---- transcription drift (information, not a verdict): the XorDecoder model's prediction ----
 DecDrift(ev) ==
    IF ~IsXor(ev) \/ Damaged(ev) \/ Cardinality(MissingOf(ev, Supplied(ev))) > ev.m THEN FALSE
@@ -93,6 +110,9 @@ Viol(ev) ==
    CASE ev.e = "Dec" -> DecViol(ev)
      [] ev.e = "Rec" -> RecViol(ev)
      [] ev.e = "Need" -> NeedViol(ev)
+     [] ev.e = "XorEq" -> XorEqViol(ev)
+     [] ev.e = "XorEqBad" -> {"C05 a parity is neither zero nor a copy of the unit data fragment"}
+     [] ev.e = "CreateBox" -> CreateBoxViol(ev)
      [] ev.e = "Fault" -> {"fault: " \o ev.how}
      [] ev.e = "Create" -> IF ev.rc <= 0 THEN {"create failed in a sweep"} ELSE {}
      [] ev.e = "Enc" -> IF ev.rc # 0 THEN {"encode failed in a sweep"} ELSE {}
@@ -107,6 +127,8 @@ Count(ev) ==
    /\ (ev.e = "Rec" => Bump(6) /\ (ev.rc < 0 => Bump(7)))
    /\ (ev.e = "Need" => Bump(8) /\ (ev.rc < 0 => Bump(9)))
    /\ (ev.e = "Fault" => Bump(10))
+   /\ (ev.e = "XorEq" => Bump(11))
+   /\ (ev.e = "CreateBox" => Bump(12))
 
 Init == l = 1
 Next == /\ l <= Len(Tr)
